@@ -3,7 +3,7 @@ import random
 import sweeps
 from sweeps import ALL, WS, program_units, diff_sweep, halts_extra
 
-PROPS_VO = ['Props/C01.vo']
+PROPS_VO = ['Props/C01.vo', 'Props/Patterns_props.vo']
 GEN_ITEMS = ['coq/Gen/GenTables.v', 'coq/Gen/GenStdlib.v', 'coq/Gen/GenLayout.v']
 LEVEL = 'proof'
 TRUSTED = ['PARTIAL: proved = Turing-jump metatheory + verified VM + idiom lemmas (goto/branch/guard/return) + operator tables + library routines on regenerated text; '
@@ -20,6 +20,8 @@ def run(ctx):
     units = program_units(rng, 140 if q else 1500, ALL, ws, cfgs_per=3, seed_base=ctx.seed + 100)
     units += program_units(rng, 40 if q else 400, ['calls', 'globals'], ws, cfgs_per=3, seed_base=ctx.seed + 101, size=1.6)
     units += program_units(rng, 30 if q else 300, ALL + ['sleep'], [8] if q else WS, cfgs_per=2, seed_base=ctx.seed + 102)
+    from component import run_corr
+    run_corr(ctx, 'corr_patterns', 'every emitted j classifies as a proved idiom; programs without time travel use only goto/branch/guard/return idioms')
     diff_sweep(ctx, 'sequential programs', units, extra=halts_extra(ctx))
     # unchecked builds of fault-free programs must behave identically (no faults feature here)
     units2 = program_units(rng, 30 if q else 300, ALL, ws, cfgs_per=2, seed_base=ctx.seed + 103, unchecked=True)
